@@ -55,4 +55,37 @@ theorem parameter_order_is_irrelevant (total : Nat) (gs gs' : List Group) (hp : 
                 (paramLoop total (renderGroups gs').length.succ (renderGroups gs') {}) :=
   paramLoop_perm total gs gs' hp hk hw
 
+/-! ### a model loaded from a CNF: `Msg.handleC`, whose state is the cursor and the clause cache -/
+
+/-- for a CNF-loaded model as well every reply is a result or an error with a documented code E2..E6 -/
+theorem cnf_model_reply_is_result_or_coded_error (nodes : List NType) (n : Nat) (st : HState)
+    (line : String) :
+    match (handleC nodes n st line).2 with
+    | .ok _ => True
+    | .err c _ => 2 ≤ c ∧ c ≤ 6 :=
+  handleC_code_ok nodes n st line
+
+/-- a rejected line changes neither the cursor nor the clause cache -/
+theorem cnf_model_rejected_line_changes_nothing (nodes : List NType) (n : Nat) (st : HState)
+    (line : String) (c : Nat) (t : Option String) (h : (handleC nodes n st line).2 = .err c t) :
+    (handleC nodes n st line).1 = st :=
+  handleC_err_keeps_state nodes n st line c t h
+
+/-- only `clause-update` and `undo-update` change the clause cache -/
+theorem cache_changes_only_by_update_or_undo (nodes : List NType) (n : Nat) (st : HState)
+    (line : String) (h : (tokens line).head? ≠ some "clause-update")
+    (h' : (tokens line).head? ≠ some "undo-update") :
+    (handleC nodes n st line).1.cache = st.cache :=
+  handleC_cache_changes_only_by_update_or_undo nodes n st line h h'
+
+/-- an accepted `clause-update` is an accepted update of the clause cache (`CC.update`, the function
+the refinement theorem of C12 is about), and the cache afterwards is the one that update produces -/
+theorem accepted_clause_update_is_a_cache_update (nodes : List NType) (n : Nat) (st : HState)
+    (line : String) (c : CC.Cache) (t : Option String)
+    (hcmd : (tokens line).head? = some "clause-update") (hc : st.cache = some c)
+    (hok : (handleC nodes n st line).2 = .ok t) :
+    ∃ total adds rmvs, (CC.update c (some total) adds rmvs).2 = .ok ∧
+      (handleC nodes n st line).1.cache = some (CC.update c (some total) adds rmvs).1 :=
+  handleC_update_is_cache_update nodes n st line c t hcmd hc hok
+
 end Ddnnf.C13
